@@ -28,6 +28,8 @@ var verifHarnesses = map[string]func(){
 	"VerifC14Escape":      VerifC14Escape,
 	"VerifC18Drop":        VerifC18Drop,
 	"VerifSysHeal":        VerifSysHeal,
+	"VerifC05Reopen":      VerifC05Reopen,
+	"VerifSysClose":       VerifSysClose,
 	"VerifSysTwoDBs":      VerifSysTwoDBs,
 	"VerifC03Instance":    VerifC03Instance,
 	"VerifSysMalformed":   VerifSysMalformed,
